@@ -166,6 +166,25 @@ def main():
             crate.add_case(cid, f"pub trait TI<T>: 'static {{ }}\npub struct X;\n#[::entrait::entrait({kind})]\n{ia}\nimpl TI for X {{\n"
                                 f"    pub {asy}fn f<D: Sync>(d: &D, a: u32) -> u32 {{ a }}\n}}\n")
             origin[cid] = ("attrs-impl", None)
+    # items assembled by macro_rules!: fragments arrive wrapped in invisible groups, which carry meaning (`$e * 2` with
+    # `$e = 1 + 2`); and syntax that a parse / print round trip normalises away (`fn a<>()`, an empty `where`, `T:`)
+    FRAG = [
+        ("($e:expr)", "(1 + 2)", "#[::entrait::entrait(pub T)]\nfn f<D>(deps: &D, x: [u8; $e * 2]) -> usize { x.len() }"),
+        ("($t:ty)", "(dyn ::core::any::Any + Send)", "#[::entrait::entrait(pub T)]\nfn f<D>(deps: &D, x: &$t) -> u8 { 1 }"),
+        ("($p:pat)", "(1 | _)", "#[::entrait::entrait(pub T, no_deps)]\nfn f((x @ $p): i32) -> i32 { x }"),
+        ("($e:expr)", "(1 + 2)", "#[::entrait::entrait(pub T)]\npub mod m {\n    pub const K: usize = $e * 2;\n    pub fn f<D>(deps: &D, x: [u8; $e * 2]) -> usize { x.len() + K }\n    fn g() -> usize { $e * 2 }\n}"),
+        ("($e:expr)", "(1 + 2)", "pub trait TI<T>: 'static { }\npub struct X;\n#[::entrait::entrait]\nimpl TI for X {\n    const K: usize = $e * 2;\n    pub fn f<D>(deps: &D, x: [u8; $e * 2]) -> usize { x.len() }\n}"),
+        ("($b:block)", "({ 1 })", "#[::entrait::entrait(pub T)]\nfn f<D>(deps: &D) -> u8 $b"),
+        ("($v:vis)", "(pub(crate))", "#[::entrait::entrait(pub T)]\n$v fn f<D>(deps: &D) -> u8 { 1 }"),
+        ("($l:lifetime)", "('a)", "#[::entrait::entrait(pub T)]\nfn f<$l, D>(deps: &$l D, s: &$l str) -> &$l str { s }"),
+        ("()", "()", "#[::entrait::entrait(pub T, no_deps)]\nfn f<>(x: u8) -> u8 where { x }"),
+        ("()", "()", "#[::entrait::entrait(pub T)]\nfn f<'a:, D:>(deps: &'a D) -> u8 { 1 }"),
+        ("()", "()", "#[::entrait::entrait(pub T)]\npub mod m {\n    pub fn f<'a:, D:>(deps: &'a D) -> u8 where { 1 }\n}"),
+    ]
+    for k3, (pat, arg, item) in enumerate(FRAG):
+        cid = f"m{k3:02d}"
+        crate.add_case(cid, f"macro_rules! mk {{ {pat} => {{\n{item}\n}} }}\nmk!{arg};\n")
+        origin[cid] = ("macro-assembled", None)
     nrand = 6000 if thorough else 1500
     for n in range(nrand):
         kind, attr, item = soup.gen_case(rng, n)
@@ -238,7 +257,7 @@ def main():
     chk.cov["by_origin"] = kinds
     chk.cov["accepted_by_macro"] = sum(1 for m in meta.values() if m["expanded"])
     chk.cov["distinct_nontrivial"] = len({json.dumps(e["l1"]["toks"]) for e in events if e["obs"]["expanded"] and len(e["l1"]["toks"]) > 8})
-    chk.cov["rule"] = ("(a) every catalogue body of spec/Items.tla (mod and impl) up to the tier's item bound, (a') 11 option sets x 3 item visibilities x both macro names on a module and a fn, 10 attribute lists on static and dyn impl blocks, (b) seeded random "
+    chk.cov["rule"] = ("(a) every catalogue body of spec/Items.tla (mod and impl) up to the tier's item bound, (a') 11 option sets x 3 item visibilities x both macro names on a module and a fn, 10 attribute lists on static and dyn impl blocks, 11 items assembled by macro_rules! from fragments (invisible groups) or with syntax a print round trip normalises, (b) seeded random "
                        "fn/mod/impl inputs with attributes, qualifiers and macro-embedded token soups (gen/soup.py), (c) every "
                        "invocation of the repository's tests/it suite; non-trivial = accepted by the macro and > 8 tokens; "
                        "distinct by input token sequence")
